@@ -38,12 +38,22 @@ def gen(r, tier, i):
         case['expand'] = r.random() < 0.4
         return case
     from vmon import structw
-    return {'class': 'dynamic', 'cell_ts': r.choice([0.5, 1.0, 1.5, 0.75]), 'dir_as': r.choice(['process', 'step']),
+    return _no_moves_with_peers({'class': 'dynamic', 'cell_ts': r.choice([0.5, 1.0, 1.5, 0.75]), 'dir_as': r.choice(['process', 'step']),
             'script': structw.gen_script(r), 'base': r.choice([[], [], ['env']]),
-            'deriver': r.choice([None, 'steps', 'processes']), 'dir_subtopo': r.random() < 0.25, 'viewer_ts': r.choice([0.25, 0.5, 1.0, 1.5, 2.0, 3.0]), 'poke': r.random() < 0.5, 'nested_cells': r.random() < 0.4,
+            'deriver': r.choice([None, 'steps', 'processes']), 'dir_subtopo': r.random() < 0.25, 'viewer_ts': r.choice([0.25, 0.5, 1.0, 1.5, 2.0, 3.0]), 'poke': r.random() < 0.5, 'nested_cells': r.random() < 0.4, 'peers': r.random() < 0.3,
             'run': r.choice([6.0, 8.0, 10.0]),
             # the caller's own loop: unforced run_for() calls (processes wait across their ends), then one update()
-            'chunks': [r.choice([0.75, 1.0, 1.25, 2.5]) for _ in range(r.choice([0, 0, 2, 3, 4]))]}
+            'chunks': [r.choice([0.75, 1.0, 1.25, 2.5]) for _ in range(r.choice([0, 0, 2, 3, 4]))]})
+
+
+def _no_moves_with_peers(spec):
+    """A peer process is wired out of its cell (to the store holding the cell): moving the cell re-points that
+    wiring to a store where nothing declares the peer's variable. That combination is left out (moves become
+    deletions); what is asserted with peers is generation, division, addition and deletion."""
+    if spec['peers']:
+        for t, ops in spec['script'].items():
+            spec['script'][t] = [(['delete', op[1], op[2], 'key'] if op[0] in ('move', 'move_regen') else op) for op in ops]
+    return spec
 
 
 def expected_view(schema, tp, ppath, tree):
